@@ -80,6 +80,7 @@ pub fn record(args: &Args) {
     let len = args.num("len", 150) as usize;
     let nmax = args.num("nmax", 5) as usize;
     let mut out = Out::new(&args.str("out", "-"));
+    set_abort_file(&format!("{}.abort", args.str("out", "ffi")));
     let mut rng = Rng::new(seed ^ 0xc18);
     out.emit(json!({"ev": "init", "kind": "bdd", "nmax": nmax, "k": K, "mode": "c18", "seed": seed}));
     for _ in 0..segs {
@@ -113,7 +114,7 @@ fn segment<'a>(nb: &'a RobddBuilder<'a, AllIteTable<BddPtr<'a>>>, cb: *mut c_voi
     let mut nv = n0;
     let mut next_slot = 0usize;
     let vl = |v: usize| VarLabel::new_usize(v);
-    for _ in 0..len {
+    for step in 0..len {
         let mut op = OPS[rng.weighted(&W)];
         if next_slot < nv.min(K - 2) && next_slot < 6 {
             op = "var";
@@ -133,6 +134,7 @@ fn segment<'a>(nb: &'a RobddBuilder<'a, AllIteTable<BddPtr<'a>>>, cb: *mut c_voi
         };
         let res = 2 + (next_slot % (K - 2));
         let mut ev = json!({"ev": op, "a": []});
+        let cctx = format!("{op} (operation {step} of a segment, {nv} variables)");
         // (native result, C result) for diagram-valued operations
         let mut produced: Option<(Result<BddPtr<'a>, String>, Result<CPtr, String>)> = None;
         let mut scalar: Option<(Result<Value, String>, Result<Value, String>)> = None;
@@ -140,27 +142,27 @@ fn segment<'a>(nb: &'a RobddBuilder<'a, AllIteTable<BddPtr<'a>>>, cb: *mut c_voi
             "var" => {
                 let (v, p) = if next_slot < nv.min(K - 2) && next_slot < 6 { (next_slot, rng.coin()) } else { (rng.below(nv), rng.coin()) };
                 ev["a"] = json!([v, p as u8]);
-                produced = Some((guarded(|| nb.var(vl(v), p)), guarded(|| unsafe { bdd_var(cb, v as u64, p) })));
+                produced = Some((guarded(|| nb.var(vl(v), p)), cguard(&cctx, || unsafe { bdd_var(cb, v as u64, p) })));
             }
             "newvar" => {
                 let p = rng.coin();
                 ev["a"] = json!([p as u8]);
                 ev["label"] = json!(nv);
-                produced = Some((guarded(|| nb.new_var(p).1), guarded(|| unsafe { bdd_new_var(cb, p) })));
+                produced = Some((guarded(|| nb.new_var(p).1), cguard(&cctx, || unsafe { bdd_new_var(cb, p) })));
                 nv += 1;
             }
             "neg" => {
                 let a = arg(rng, &npool);
                 ev["a"] = json!([a]);
-                produced = Some((guarded(|| nb.negate(npool[a])), guarded(|| unsafe { bdd_negate(cb, cpool[a]) })));
+                produced = Some((guarded(|| nb.negate(npool[a])), cguard(&cctx, || unsafe { bdd_negate(cb, cpool[a]) })));
             }
             "and" | "or" => {
                 let (a, c) = (arg(rng, &npool), arg(rng, &npool));
                 ev["a"] = json!([a, c]);
                 produced = Some(if op == "and" {
-                    (guarded(|| nb.and(npool[a], npool[c])), guarded(|| unsafe { bdd_and(cb, cpool[a], cpool[c]) }))
+                    (guarded(|| nb.and(npool[a], npool[c])), cguard(&cctx, || unsafe { bdd_and(cb, cpool[a], cpool[c]) }))
                 } else {
-                    (guarded(|| nb.or(npool[a], npool[c])), guarded(|| unsafe { bdd_or(cb, cpool[a], cpool[c]) }))
+                    (guarded(|| nb.or(npool[a], npool[c])), cguard(&cctx, || unsafe { bdd_or(cb, cpool[a], cpool[c]) }))
                 });
             }
             "xor" => {
@@ -169,7 +171,7 @@ fn segment<'a>(nb: &'a RobddBuilder<'a, AllIteTable<BddPtr<'a>>>, cb: *mut c_voi
                 ev["a"] = json!([a, c]);
                 produced = Some((
                     guarded(|| nb.ite(npool[a], nb.negate(npool[c]), npool[c])),
-                    guarded(|| unsafe { bdd_ite(cb, cpool[a], bdd_negate(cb, cpool[c]), cpool[c]) }),
+                    cguard(&cctx, || unsafe { bdd_ite(cb, cpool[a], bdd_negate(cb, cpool[c]), cpool[c]) }),
                 ));
             }
             "ite" => {
@@ -177,7 +179,7 @@ fn segment<'a>(nb: &'a RobddBuilder<'a, AllIteTable<BddPtr<'a>>>, cb: *mut c_voi
                 ev["a"] = json!([a, c, d]);
                 produced = Some((
                     guarded(|| nb.ite(npool[a], npool[c], npool[d])),
-                    guarded(|| unsafe { bdd_ite(cb, cpool[a], cpool[c], cpool[d]) }),
+                    cguard(&cctx, || unsafe { bdd_ite(cb, cpool[a], cpool[c], cpool[d]) }),
                 ));
             }
             "compose" => {
@@ -185,7 +187,7 @@ fn segment<'a>(nb: &'a RobddBuilder<'a, AllIteTable<BddPtr<'a>>>, cb: *mut c_voi
                 ev["a"] = json!([a, v, c]);
                 produced = Some((
                     guarded(|| nb.compose(npool[a], vl(v), npool[c])),
-                    guarded(|| unsafe { bdd_compose(cb, cpool[a], v as u64, cpool[c]) }),
+                    cguard(&cctx, || unsafe { bdd_compose(cb, cpool[a], v as u64, cpool[c]) }),
                 ));
             }
             "low" | "high" => {
@@ -195,10 +197,14 @@ fn segment<'a>(nb: &'a RobddBuilder<'a, AllIteTable<BddPtr<'a>>>, cb: *mut c_voi
                     continue;
                 }
                 ev["a"] = json!([a]);
+                // a panic inside an extern "C" function cannot unwind (it aborts the recorder): if the C-side diagram is a
+                // constant where the native one is not, that divergence is logged instead of dereferencing the constant
+                let c_const = unsafe { bdd_is_const(cpool[a]) };
+                let diverged = || Err::<*mut BddPtr<'static>, String>("the C-side diagram is a constant where the native one is not".to_string());
                 produced = Some(if op == "low" {
-                    (guarded(|| npool[a].low()), guarded(|| unsafe { bdd_low(cpool[a]) }))
+                    (guarded(|| npool[a].low()), if c_const { diverged() } else { cguard(&cctx, || unsafe { bdd_low(cpool[a]) }) })
                 } else {
-                    (guarded(|| npool[a].high()), guarded(|| unsafe { bdd_high(cpool[a]) }))
+                    (guarded(|| npool[a].high()), if c_const { diverged() } else { cguard(&cctx, || unsafe { bdd_high(cpool[a]) }) })
                 });
             }
             "cnf" => {
@@ -218,13 +224,13 @@ fn segment<'a>(nb: &'a RobddBuilder<'a, AllIteTable<BddPtr<'a>>>, cb: *mut c_voi
                 let cs = CString::new(text.clone()).unwrap();
                 produced = Some((
                     guarded(|| nb.compile_cnf(&Cnf::from_dimacs(&text))),
-                    guarded(|| unsafe { robdd_builder_compile_cnf(cb, cnf_from_dimacs(cs.as_ptr())) }),
+                    cguard(&cctx, || unsafe { robdd_builder_compile_cnf(cb, cnf_from_dimacs(cs.as_ptr())) }),
                 ));
             }
             "eq" => {
                 let (a, c) = (arg(rng, &npool), arg(rng, &npool));
                 ev["a"] = json!([a, c]);
-                scalar = Some((guarded(|| json!(nb.eq(npool[a], npool[c]))), guarded(|| json!(unsafe { bdd_eq(cb, cpool[a], cpool[c]) }))));
+                scalar = Some((guarded(|| json!(nb.eq(npool[a], npool[c]))), cguard(&cctx, || json!(unsafe { bdd_eq(cb, cpool[a], cpool[c]) }))));
             }
             "topvar" => {
                 let a = arg(rng, &npool);
@@ -234,13 +240,13 @@ fn segment<'a>(nb: &'a RobddBuilder<'a, AllIteTable<BddPtr<'a>>>, cb: *mut c_voi
                 ev["a"] = json!([a]);
                 scalar = Some((
                     guarded(|| json!([npool[a].var_safe().unwrap().value(), npool[a].is_true(), npool[a].is_false(), npool[a].is_const()])),
-                    guarded(|| unsafe { json!([bdd_topvar(cpool[a]), bdd_is_true(cpool[a]), bdd_is_false(cpool[a]), bdd_is_const(cpool[a])]) }),
+                    cguard(&cctx, || unsafe { json!([bdd_topvar(cpool[a]), bdd_is_true(cpool[a]), bdd_is_false(cpool[a]), bdd_is_const(cpool[a])]) }),
                 ));
             }
             "cnt" => {
                 let a = arg(rng, &npool);
                 ev["a"] = json!([a]);
-                scalar = Some((guarded(|| json!(npool[a].count_nodes())), guarded(|| json!(unsafe { bdd_count_nodes(cpool[a]) }))));
+                scalar = Some((guarded(|| json!(npool[a].count_nodes())), cguard(&cctx, || json!(unsafe { bdd_count_nodes(cpool[a]) }))));
             }
             "mc" => {
                 let a = arg(rng, &npool);
@@ -256,7 +262,7 @@ fn segment<'a>(nb: &'a RobddBuilder<'a, AllIteTable<BddPtr<'a>>>, cb: *mut c_voi
                         ));
                         json!(sm.unsmoothed_wmc(&p).value() as u64)
                     }),
-                    guarded(|| json!(unsafe { robdd_model_count(cb, cpool[a]) })),
+                    cguard(&cctx, || json!(unsafe { robdd_model_count(cb, cpool[a]) })),
                 ));
             }
             "wmcr" | "wmcc" | "wmcp" => {
@@ -274,7 +280,7 @@ fn segment<'a>(nb: &'a RobddBuilder<'a, AllIteTable<BddPtr<'a>>>, cb: *mut c_voi
                             let p = WmcParams::<RealSemiring>::new(HashMap::from_iter(ws.iter().enumerate().map(|(i, w)| (vl(i), (RealSemiring(w[0]), RealSemiring(w[1]))))));
                             json!([numv(x.unsmoothed_wmc(&p).0 * sc)])
                         }),
-                        guarded(|| unsafe {
+                        cguard(&cctx, || unsafe {
                             let p = new_wmc_params_f64();
                             for (i, w) in ws.iter().enumerate() {
                                 wmc_param_f64_set_weight(p, i as u64, w[0], w[1]);
@@ -290,7 +296,7 @@ fn segment<'a>(nb: &'a RobddBuilder<'a, AllIteTable<BddPtr<'a>>>, cb: *mut c_voi
                             let r = x.unsmoothed_wmc(&p);
                             json!([numv(r.re * sc), numv(r.im * sc)])
                         }),
-                        guarded(|| unsafe {
+                        cguard(&cctx, || unsafe {
                             let p = new_wmc_params_complex();
                             for (i, w) in ws.iter().enumerate() {
                                 wmc_param_complex_set_weight(p, i as u64, CComplex { re: w[0], im: w[2] }, CComplex { re: w[1], im: w[3] });
@@ -312,7 +318,7 @@ fn segment<'a>(nb: &'a RobddBuilder<'a, AllIteTable<BddPtr<'a>>>, cb: *mut c_voi
                             let r = x.unsmoothed_wmc(&p);
                             json!({"len": r.len, "c": (0..r.len.min(8)).map(|i| numv(r.coefficients[i].0 * sc)).collect::<Vec<_>>()})
                         }),
-                        guarded(|| unsafe {
+                        cguard(&cctx, || unsafe {
                             let p = new_wmc_params_poly();
                             for (i, w) in ws.iter().enumerate() {
                                 let (lo, hi) = ([w[0], w[2]], [w[1], w[3]]);
@@ -332,7 +338,7 @@ fn segment<'a>(nb: &'a RobddBuilder<'a, AllIteTable<BddPtr<'a>>>, cb: *mut c_voi
                 ev["a"] = json!([a]);
                 scalar = Some((
                     guarded(|| serde_json::to_value(BDDSerializer::from_bdd(npool[a])).unwrap()),
-                    guarded(|| unsafe {
+                    cguard(&cctx, || unsafe {
                         let s = CStr::from_ptr(bdd_to_json(cpool[a])).to_string_lossy().to_string();
                         serde_json::from_str::<Value>(&s).unwrap()
                     }),
